@@ -491,6 +491,10 @@ def coerce(v: Val, shape: Shape) -> Val:
             return vseq_empty(shape.elem)
     if isinstance(shape, IntS) and isinstance(vs, BoolS):
         return Val(INT, z3.If(v.d, 1, 0))
+    if isinstance(shape, MapS) and isinstance(vs, ConcS):
+        from .objects import PyMap
+        if isinstance(v.d, PyMap) and not v.d.items and v.d.default is None:
+            return map_empty(shape)
     if vs == shape:
         return v
     raise ShapeError(f"cannot coerce {vs} to {shape}")
@@ -544,6 +548,13 @@ def ite(c, a: Val, b: Val) -> Val:
 
 
 # ---------------------------------------------------------------- sequences
+
+def map_empty(shape: MapS) -> Val:
+    ksort = shape.key.sorts()[0]
+    pres = z3.K(ksort, z3.BoolVal(False))
+    arrs = [z3.K(ksort, _default_leaf(srt)) for srt in shape.val.sorts()]
+    return Val(shape, (pres, arrs))
+
 
 def seq_len(v: Val):
     return v.d[1]
